@@ -15,5 +15,6 @@ CONSTANTS
   WithMeta = TRUE
   WithLiteral = TRUE
   WithForeign = TRUE
+  WithLca = TRUE
 INVARIANT Report
 CHECK_DEADLOCK FALSE
